@@ -255,31 +255,55 @@ def run(ctx):
               'Load can succeed without leapcnt == 0 having been established for the header whose data is decoded (e.g. only the '
               'first header of a version-2 file is checked): leap-second files load as ordinary zones', construct='data:leapcnt')
     # end of data while the footer is read is a failed load: once a character read from the source is known to be
-    # EOF no accepting return is reachable
+    # EOF no accepting return is reachable -- in Load itself or in a file-local helper it delegates the footer to
+    # (whose refusal must in turn make Load fail)
     from .loader import _reach_from
     n_eof = 0
-    for n in gl.live:
-        if n.kind != 'cond':
-            continue
-        for lab in ('T', 'F'):
-            for (op, a, b) in Fl.cond_facts(n.ast, lab == 'T'):
-                if op == '==' and 'n:-1' in (a, b):
-                    var = a if b == 'n:-1' else b
-                    m = re.match(r'^\w+#(0x[0-9a-f]+)$', var)
-                    d = ul.by_id.get(m.group(1)) if m else None
-                    if d is None or d.get('kind') != 'VarDecl' or (dtype(d) or qtype(d)) != 'int':
-                        continue
-                    src = [kids(d)[-1]] if kids(d) else []
-                    src += [kids(y)[1] for y in walk(fl) if y.get('kind') == 'BinaryOperator' and y.get('opcode') == '=' and
-                            (peel(kids(y)[0]).get('referencedDecl') or {}).get('id') == d['id']]
-                    if not src or not all(any(z.get('kind') in ('CallExpr', 'CXXOperatorCallExpr', 'CXXMemberCallExpr') for z in walk(e_)) for e_ in src):
-                        continue
-                    n_eof += 1
-                    starts = [m_ for (m_, l_) in n.succs if l_ == lab]
-                    leak = _reach_from(gl, starts, accl)
-                    ctx.check(not leak, 'C19-data', 'end of data in the footer (%s == EOF) fails the load' % var.split('#')[0], n.ast,
-                              'after a character read from the source is found to be EOF, Load can still return true: a file '
-                              'truncated inside its footer loads as a zone', construct='data:eof:%s' % var.split('#')[0])
+    for (ux, fx) in ctx.scope(fl):
+        Fx = ctx.facts(fx)
+        gx = ctx.cfg(fx)
+        accx = [rn for rn in gx.returns if kids(rn.ast) and Fx.keys.key(kids(rn.ast)[0]) not in ('n:0', 'n:-1', 'null')]
+        is_helper = fx is not fl
+        found_here = 0
+        for n in gx.live:
+            if n.kind != 'cond':
+                continue
+            for lab in ('T', 'F'):
+                for (op, a, b) in Fx.cond_facts(n.ast, lab == 'T'):
+                    if op == '==' and 'n:-1' in (a, b):
+                        var = a if b == 'n:-1' else b
+                        m = re.match(r'^\w+#(0x[0-9a-f]+)$', var)
+                        d = ux.by_id.get(m.group(1)) if m else None
+                        if d is None or d.get('kind') != 'VarDecl' or (dtype(d) or qtype(d)).replace('const ', '') != 'int':
+                            continue
+                        src = [kids(d)[-1]] if kids(d) else []
+                        src += [kids(y)[1] for y in walk(fx) if y.get('kind') == 'BinaryOperator' and y.get('opcode') == '=' and
+                                (peel(kids(y)[0]).get('referencedDecl') or {}).get('id') == d['id']]
+                        if not src or not all(any(z.get('kind') in ('CallExpr', 'CXXOperatorCallExpr', 'CXXMemberCallExpr') for z in walk(e_)) for e_ in src):
+                            continue
+                        if is_helper and (qtype(fx).split('(')[0].strip() != 'bool'):
+                            continue        # (a byte reader that hands EOF on to its caller)
+                        n_eof += 1
+                        found_here += 1
+                        starts = [m_ for (m_, l_) in n.succs if l_ == lab]
+                        leak = _reach_from(gx, starts, accx)
+                        ctx.check(not leak, 'C19-data', 'end of data in the footer (%s == EOF) fails the load' % var.split('#')[0], n.ast,
+                                  'after a character read from the source is found to be EOF, %s can still return true: a file '
+                                  'truncated inside its footer loads as a zone' % (qn(fx).split('::')[-1]), construct='data:eof:%s' % var.split('#')[0])
+        if is_helper and found_here:
+            # the helper's refusal fails the load
+            from ..callgraph import fkey as _fk
+            good = False
+            for n in gl.live:
+                if n.kind != 'cond':
+                    continue
+                for lab in ('T', 'F'):
+                    for (op, a, b) in Fl.cond_facts(n.ast, lab == 'T'):
+                        if op == '==' and 'n:0' in (a, b) and (a if b == 'n:0' else b).startswith(qn(fx) + '('):
+                            starts = [m_ for (m_, l_) in n.succs if l_ == lab]
+                            good = not _reach_from(gl, starts, accl)
+            ctx.check(good, 'C19-data', 'refusal of %s fails the load' % qn(fx).split('::')[-1], fx,
+                      'Load can return true after %s reported end of data' % qn(fx), construct='data:eof:delegate')
     if n_eof < 1:
         ctx.bad('C19-data', 'end of data in the footer fails the load', fl,
                 'no test of a character read from the source against EOF was found in Load: a file truncated inside its footer '
